@@ -111,6 +111,18 @@ def mine_in(ctx, i, group):
     return ctx.shard in group and group.index(ctx.shard) == i % len(group)
 
 
+class _OwnProtocol:
+    """pyunicorn.utils.mpi itself, announcing `size` processes."""
+
+    def __init__(self, real, size):
+        self._real = real
+        self.available = True
+        self.size = size
+
+    def __getattr__(self, k):
+        return getattr(self._real, k)
+
+
 def master_loop_cases(ctx):
     MAST = _roles(ctx)[1]
     import pyunicorn.core.network as netmod
@@ -126,10 +138,11 @@ def master_loop_cases(ctx):
         r = ctx.rng("net", nets)
         if ctx.thorough and nets % 9 == 0:
             sizes = [int(r.integers(101, 131))]
-        elif nets % 6 == 3:
+        elif nets % 4 == 3:
             # component sizes at which the chunk bookkeeping rounds: a last
             # chunk shorter than half a step, a chunk of a single node
-            sizes = [int(r.choice([64, 73, 74, 82, 91, 101, 111]))]
+            # (taken in turn, so that every run sees each of them)
+            sizes = [[64, 91, 74, 73, 101, 82, 111][(nets // 4) % 7]]
             ctx.count("chunk_rounding_sizes")
         else:
             sizes = [int(v) for v in r.integers(11, 46, int(r.integers(1, 3)))]
@@ -140,7 +153,7 @@ def master_loop_cases(ctx):
         w = G.pos_weights(r, n)
         serial = {}
         for m, kw in MEASURES:
-            if max(sizes) > 60 and m == "nsi_arenas_betweenness":
+            if max(sizes) > 95 and m == "nsi_arenas_betweenness":
                 continue     # O(N^4): out of budget at this size
             for rep in range(3 if ctx.thorough else 2):
                 k += 1
@@ -165,6 +178,37 @@ def master_loop_cases(ctx):
                 if not ok0:
                     ctx.count("serial_raises")
                     continue
+                if rr.random() < 0.2:
+                    # the master loops on the library's own protocol code in
+                    # its documented mode without slaves (the master does
+                    # every call itself at submission): a module object that
+                    # differs from pyunicorn.utils.mpi only in announcing W
+                    # processes
+                    own = _OwnProtocol(real_mpi, W)
+                    netmod.mpi = own
+                    try:
+                        net = Network(adjacency=A, node_weights=w,
+                                      silence_level=sl)
+                        with ctx.guard(300):
+                            ok, val = ctx.call(getattr(net, m), **kw)
+                    finally:
+                        netmod.mpi = real_mpi
+                    ctx.evals()
+                    ctx.count("own_protocol_code_runs")
+                    if len([x for x in sizes if x >= 2]) + \
+                            (2 in ((1, 2) if nets % 2 else ())) >= 2:
+                        ctx.count("own_protocol_ids_reused")
+                    if not ok:
+                        ctx.violation(
+                            f"{key}:own-protocol-raises:{type(val).__name__}",
+                            {"sizes": sizes, "N": n, "W": W,
+                             "exc": repr(val)}, cid)
+                    elif not close(val, ref):
+                        ctx.violation(
+                            f"{key}:own-protocol!=serial",
+                            {"sizes": sizes, "N": n, "W": W, "serial": ref,
+                             "distributed": val}, cid)
+                    continue
                 fake = FakeMPI(W, policy, order, rng=rr)
                 netmod.mpi = fake
                 try:
@@ -180,6 +224,9 @@ def master_loop_cases(ctx):
                         "edges": np.argwhere(np.triu(A)).tolist()
                         if n <= 40 else "large", "weights": w}
                 chunks = fake.max_chunks()
+                if m == "nsi_arenas_betweenness" and max(sizes) in (
+                        64, 73, 82, 91):
+                    ctx.count("arenas_with_a_short_last_chunk")
                 if chunks >= 2:
                     ctx.count("multi_chunk_runs")
                     ctx.nontrivial((nets, key, W, policy, order, sl))
